@@ -616,3 +616,43 @@ func vCallUn(op string, a *Dense, lo, hi interface{}, opts ...FuncOpt) (Tensor, 
 	}
 	panic("vCallUn: unknown op " + op)
 }
+
+// vUnValues returns the value(s) the scalar function `op` may deliver for x (two alternatives where the element type's
+// routine may be either of two equivalent library routines; otherwise both are the same).
+func vUnValues[T vNum](op string, x, lo, hi T) (T, T) {
+	var one T = 1
+	var zero T
+	switch op {
+	case "Neg":
+		return -x, -x
+	case "Inv":
+		return one / x, one / x
+	case "Square":
+		return x * x, x * x
+	case "Cube":
+		return x * x * x, x * x * x
+	case "Abs":
+		switch xv := any(x).(type) {
+		case float64:
+			r := any(math.Abs(xv)).(T)
+			return r, r
+		case float32:
+			r := any(math32.Abs(xv)).(T)
+			return r, r
+		}
+		r := vIte(vLess(x, zero), -x, x)
+		return r, r
+	case "Sign":
+		r := vIte(vLess(x, zero), -one, vIte(vLess(zero, x), one, x))
+		return r, r
+	case "Clamp":
+		r := vIte(vLess(x, lo), lo, vIte(vLess(hi, x), hi, x))
+		return r, r
+	case "InvSqrt":
+		s, _ := vMath1("Sqrt", x)
+		return one / s, one / s
+	case "Sqrt", "Exp", "Tanh", "Log", "Log2", "Log10", "Cbrt":
+		return vMath1(op, x)
+	}
+	panic("vUnValues: unknown op " + op)
+}
